@@ -169,6 +169,9 @@ func (st *Std) FoldExpr(e ast.Expr, s S) (constant.Value, bool) {
 			}
 		}
 	case *ast.BinaryExpr:
+		if v, ok := st.foldSaturated(x, s); ok {
+			return v, true
+		}
 		a, ok1 := st.FoldExpr(x.X, s)
 		b, ok2 := st.FoldExpr(x.Y, s)
 		if !ok1 || !ok2 {
@@ -181,6 +184,57 @@ func (st *Std) FoldExpr(e ast.Expr, s S) (constant.Value, bool) {
 				return constant.MakeInt64(int64(len(constant.StringVal(v)))), true
 			}
 		}
+	}
+	return nil, false
+}
+
+const (
+	satCap  = 3
+	satRepr = "3+"
+)
+
+// foldSaturated compares a saturated counter (value >= satCap) with a
+// constant below satCap; the outcome is the same for every such value.
+func (st *Std) foldSaturated(x *ast.BinaryExpr, s S) (constant.Value, bool) {
+	info := st.F.Info()
+	isSat := func(e ast.Expr) bool {
+		id, ok := ast.Unparen(e).(*ast.Ident)
+		if !ok {
+			return false
+		}
+		o := ObjOf(info, id)
+		return o != nil && st.trackable(o) && s.Get("v:"+VarID(o)) == satRepr
+	}
+	op := x.Op
+	var c ast.Expr
+	switch {
+	case isSat(x.X):
+		c = x.Y
+	case isSat(x.Y):
+		c = x.X
+		switch op { // mirror
+		case token.LSS:
+			op = token.GTR
+		case token.GTR:
+			op = token.LSS
+		case token.LEQ:
+			op = token.GEQ
+		case token.GEQ:
+			op = token.LEQ
+		}
+	default:
+		return nil, false
+	}
+	cv, ok := st.FoldExpr(c, s)
+	if !ok || cv.Kind() != constant.Int {
+		return nil, false
+	}
+	if iv, exact := constant.Int64Val(cv); !exact || iv >= satCap {
+		return nil, false
+	}
+	switch op {
+	case token.EQL, token.NEQ, token.LSS, token.LEQ, token.GTR, token.GEQ:
+		return constant.MakeBool(constant.Compare(constant.MakeInt64(satCap), op, cv)), true
 	}
 	return nil, false
 }
@@ -345,6 +399,24 @@ func (st *Std) Client() Client {
 					}
 				}
 			case *ast.IncDecStmt:
+				// a tracked small counter keeps its value (capped)
+				if o := ObjOf(info, y.X); o != nil && st.trackable(o) {
+					if v, ok := st.FoldExpr(y.X, x); ok && v.Kind() == constant.Int {
+						if iv, exact := constant.Int64Val(v); exact && iv >= 0 && iv < satCap && y.Tok == token.INC {
+							iv++
+							if iv == satCap {
+								// saturated: stands for every value >= satCap
+								x = x.Set("v:"+VarID(o), satRepr)
+							} else {
+								x = x.Set("v:"+VarID(o), constRepr(constant.MakeInt64(iv)))
+							}
+							break
+						}
+					}
+					if x.Get("v:"+VarID(o)) == satRepr && y.Tok == token.INC {
+						break
+					}
+				}
 				x = st.assign(x, y.X, nil, nil, false)
 			case *ast.ValueSpec:
 				for i, nm := range y.Names {
@@ -376,7 +448,32 @@ func (st *Std) Client() Client {
 		}
 		return out
 	}
+	var cond0 func(c ast.Expr, s S) (t, f []S)
 	cond := func(c ast.Expr, s S) (t, f []S) {
+		// calls evaluated as part of the condition are seen by OnCall first
+		states := []S{s}
+		if st.OnCall != nil {
+			for _, call := range CallsIn(c) {
+				var next []S
+				for _, x := range states {
+					r := st.OnCall(call, c, x)
+					if r == nil {
+						next = append(next, x)
+					} else {
+						next = append(next, r...)
+					}
+				}
+				states = next
+			}
+		}
+		for _, x := range states {
+			a, b := cond0(c, x)
+			t = append(t, a...)
+			f = append(f, b...)
+		}
+		return t, f
+	}
+	cond0 = func(c ast.Expr, s S) (t, f []S) {
 		// error-edge hook for a bare `err != nil` / `err == nil`
 		if x, trueIsErr, ok := ErrCheck(info, c); ok {
 			if o := ObjOf(info, x); o != nil {
